@@ -914,13 +914,41 @@ Proof. unfold fix_col_idx, sunswap, set_cs, set_r, set_x, gcs. destruct (Nat.eqb
 Lemma srs_fix_row_idx t i oi v : srs (set_rs (fix_row_idx t i oi) i v) = sunswap (srs t) i oi v.
 Proof. unfold fix_row_idx, sunswap, set_rs, set_y, set_s, grs. destruct (Nat.eqb i oi); reflexivity. Qed.
 
+(* projections through the setters *)
+Lemma scs_set_x t j v : scs (set_x t j v) = scs t. Proof. reflexivity. Qed.
+Lemma scs_set_y t j v : scs (set_y t j v) = scs t. Proof. reflexivity. Qed.
+Lemma scs_set_s t j v : scs (set_s t j v) = scs t. Proof. reflexivity. Qed.
+Lemma scs_set_r t j v : scs (set_r t j v) = scs t. Proof. reflexivity. Qed.
+Lemma scs_set_rs t j v : scs (set_rs t j v) = scs t. Proof. reflexivity. Qed.
+Lemma scs_set_svec t v : scs (set_svec t v) = scs t. Proof. reflexivity. Qed.
+Lemma scs_set_cs t j v : scs (set_cs t j v) = supd (scs t) j v. Proof. reflexivity. Qed.
+Lemma srs_set_x t j v : srs (set_x t j v) = srs t. Proof. reflexivity. Qed.
+Lemma srs_set_y t j v : srs (set_y t j v) = srs t. Proof. reflexivity. Qed.
+Lemma srs_set_s t j v : srs (set_s t j v) = srs t. Proof. reflexivity. Qed.
+Lemma srs_set_r t j v : srs (set_r t j v) = srs t. Proof. reflexivity. Qed.
+Lemma srs_set_cs t j v : srs (set_cs t j v) = srs t. Proof. reflexivity. Qed.
+Lemma srs_set_svec t v : srs (set_svec t v) = srs t. Proof. reflexivity. Qed.
+Lemma srs_set_rs t j v : srs (set_rs t j v) = supd (srs t) j v. Proof. reflexivity. Qed.
+Lemma scs_fix_row t i oi : scs (fix_row_idx t i oi) = scs t.
+Proof. unfold fix_row_idx. destruct (Nat.eqb i oi); reflexivity. Qed.
+Lemma srs_fix_col t j oj : srs (fix_col_idx t j oj) = srs t.
+Proof. unfold fix_col_idx. destruct (Nat.eqb j oj); reflexivity. Qed.
+Lemma scs_fix_col t j oj : scs (fix_col_idx t j oj) = if Nat.eqb j oj then scs t else supd (scs t) oj (snth (scs t) j).
+Proof. unfold fix_col_idx. destruct (Nat.eqb j oj); reflexivity. Qed.
+Lemma srs_fix_row t i oi : srs (fix_row_idx t i oi) = if Nat.eqb i oi then srs t else supd (srs t) oi (snth (srs t) i).
+Proof. unfold fix_row_idx. destruct (Nat.eqb i oi); reflexivity. Qed.
+
+Ltac proj_status :=
+  repeat (rewrite ?scs_set_x, ?scs_set_y, ?scs_set_s, ?scs_set_r, ?scs_set_rs, ?scs_set_svec, ?scs_set_cs,
+                  ?srs_set_x, ?srs_set_y, ?srs_set_s, ?srs_set_r, ?srs_set_cs, ?srs_set_svec, ?srs_set_rs,
+                  ?scs_fix_row, ?srs_fix_col, ?scs_fix_col, ?srs_fix_row).
+
 Lemma FreeColSingleton_statuses c j i oj oi obj lRhs onLhs eqCons row t :
   let t' := exec_FreeColSingleton c j i oj oi obj lRhs onLhs eqCons row t in
   scs t' = sunswap (scs t) j oj BASIC /\
   srs t' = sunswap (srs t) i oi (if eqCons then FIXED else if onLhs then ON_LOWER else ON_UPPER).
 Proof.
-  unfold exec_FreeColSingleton, fix_col_idx, fix_row_idx, sunswap, set_rs, set_cs, set_r, set_y, set_s, set_x, gcs, grs; cbv zeta.
-  destruct (Nat.eqb j oj), (Nat.eqb i oi); split; reflexivity.
+  unfold exec_FreeColSingleton. cbv zeta. split; proj_status; unfold sunswap; reflexivity.
 Qed.
 
 Lemma MultiAggregation_statuses c j i oj oi obj cst onLhs eqCons row col t :
@@ -928,8 +956,7 @@ Lemma MultiAggregation_statuses c j i oj oi obj cst onLhs eqCons row col t :
   scs t' = sunswap (scs t) j oj BASIC /\
   srs t' = sunswap (srs t) i oi (if eqCons then FIXED else if onLhs then ON_LOWER else ON_UPPER).
 Proof.
-  unfold exec_MultiAggregation, fix_col_idx, fix_row_idx, sunswap, set_rs, set_cs, set_r, set_y, set_s, set_x, set_svec, gcs, grs; cbv zeta.
-  destruct (Nat.eqb j oj), (Nat.eqb i oi); split; reflexivity.
+  unfold exec_MultiAggregation. cbv zeta. split; proj_status; unfold sunswap; reflexivity.
 Qed.
 
 (* n1, m1: dimensions of the reduced LP; the step restores column j <= n1 and row i <= m1 *)
@@ -1059,8 +1086,8 @@ Lemma all_inv_b_ok P t : all_inv_b P t = true ->
   prim_ident P t /\ dual_ident P t /\ prim_feas P t /\ dual_signs P t /\ basis_count P t.
 Proof.
   unfold all_inv_b. rewrite !andb_true_iff. intros [[[[A B] C] D] E].
-  repeat split; [now apply prim_ident_b_ok|now apply dual_ident_b_ok|apply prim_feas_b_ok in C; apply C|apply prim_feas_b_ok in C; apply C
-                |apply dual_signs_b_ok in D; apply D|apply dual_signs_b_ok in D; apply D|now apply basis_count_b_ok].
+  apply prim_ident_b_ok in A. apply dual_ident_b_ok in B. apply prim_feas_b_ok in C. apply dual_signs_b_ok in D.
+  apply basis_count_b_ok in E. tauto.
 Qed.
 
 Definition mkcol (o : Q) (lo up : option Q) : col := {| c_obj := o; c_lo := lo; c_up := up |}.
@@ -1092,7 +1119,7 @@ Lemma aggregation_dual_refuted_old_rule :
   exists t', agg_old = Some t' /\ prim_ident agg_P t' /\ ~ dual_ident agg_P t'.
 Proof.
   pose proof (all_inv_b_ok _ _ agg_witness_reduced_ok) as (A & B & C & D & E).
-  repeat split; try assumption; try apply C; try apply D.
+  split; [exact A|]. split; [exact B|]. split; [exact C|]. split; [exact D|]. split; [exact E|].
   eexists. split; [vm_compute; reflexivity|]. split.
   - apply prim_ident_b_ok. vm_compute. reflexivity.
   - intros H. apply dual_ident_b_ok in H. vm_compute in H. discriminate.
@@ -1153,7 +1180,7 @@ Lemma multiaggregation_slack_refuted_old_rule :
   dual_ident magg_P magg_old /\ ~ prim_ident magg_P magg_old.
 Proof.
   pose proof (all_inv_b_ok _ _ magg_witness_reduced_ok) as (A & B & C & D & E).
-  repeat split; try assumption; try apply C; try apply D.
+  split; [exact A|]. split; [exact B|]. split; [exact C|]. split; [exact D|]. split; [exact E|]. split.
   - apply dual_ident_b_ok. vm_compute. reflexivity.
   - intros H. apply prim_ident_b_ok in H. vm_compute in H. discriminate.
 Qed.
